@@ -456,3 +456,5 @@ func doReplay(id, file string) int {
 }
 
 var replayHandlers = map[string]func(ReplayFile) int{}
+
+func time_After(t time.Time) bool { return time.Now().After(t) }
